@@ -9,10 +9,42 @@ NOTE_COMMON = ("Trusted: go/ssa lowering, the gosmt interpreter (validated each 
                "Claim holds only within the case-split ranges, buffer sizes and unwinding limits written to the evidence file; ")
 
 claimed = {
+ "C02": dict(
+   text="Bounded symbolic execution of the client's real ServerKeyExchange processing for both key-exchange families (tlcp and dtlcp): for every ServerKeyExchange body up to the stated length and every certificate list of 0..3 entries with arbitrary key types, acceptance implies that the signature was verified exactly once with the SIGNING certificate's key over client_random || server_random || (uint24 len || encryption certificate | ServerECDHParams) and that the verdict was honoured. Thin so far: the whole-handshake lemmas of DESIGN.md section 6 C02 (certificate chain options, Finished, resumption) are being added.",
+   note=NOTE_COMMON + "E8/E10: SM2 verification is a stub with an arbitrary verdict whose arguments are logged; certificates are objects with arbitrary Raw bytes and key types.",
+   ref="section 6 C02"),
+ "C04": dict(
+   text="Bounded symbolic execution of (a) the client's pre-master secret construction (48 bytes = offered version || 46 bytes from Rand, encrypted to the server's ENCRYPTION certificate, ClientKeyExchange framing; ECDHE needs the signed temporary key) and (b) through the C05 stream harness, that record header lengths are consistent with the bytes written. Thin so far: PRF/key-block/record-MAC equivalence lemmas of DESIGN.md section 6 C04 are being added.",
+   note=NOTE_COMMON + "E9: SM2 encryption / key agreement are stubs returning arbitrary bytes with logged arguments.",
+   ref="section 6 C04"),
+ "C05": dict(
+   text="Bounded symbolic execution of the real Write -> attacker -> Read path of the stream stack for SM4-GCM and SM4-CBC: 2 genuine application records from the sender's real write path, then an ARBITRARY attacker stream (arbitrary type/version/contents, record lengths case-split around the genuine lengths; GCM up to 3 records, CBC 1 (quick) / 2 (thorough)), then 3-4 Reads with buffers of 1-2 bytes: bytes handed out are a prefix of the genuine plaintext, in order; after the first error every Read fails with no bytes. Plus extractPadding == the TLS 1.0 padding specification for every payload of 0..48 (quick) / 0..300 (thorough) bytes, both stacks.",
+   note=NOTE_COMMON + "E5-E7: ideal AEAD, CBC as identity, HMAC as an unforgeable uninterpreted function; timing side channels are outside this technique.",
+   ref="section 6 C05"),
+ "C09": dict(
+   text="Bounded symbolic execution, panic events checked at every index/slice/type-assertion/nil dereference: all 9 (tlcp) + 10 (dtlcp) unmarshal functions on arbitrary byte strings (0..16/24 bytes, hellos 0..50/58), framed strings for the reverse-codec harnesses, every key-exchange processing function of both roles on arbitrary bodies and certificate key types, the DTLCP fragment buffer on hostile offsets/lengths. Thin so far: record-layer progress and memory-bound lemmas of DESIGN.md section 6 C09 are being added.",
+   note=NOTE_COMMON + "E8-E10 stubs for public-key primitives and certificates.",
+   ref="section 6 C09"),
+ "C11": dict(
+   text="Bounded symbolic execution of the real lruSessionCache (with the real container/list) of both stacks against a reference LRU written in the harness: capacity 1..3 (quick) / 1..4 (thorough), 4 / 5 operations, each an arbitrary choice of Put(new) / Put(object already stored under another key: the createNewSession aliasing pattern) / Put(nil) / Get(k) / Get(\"\"), keys arbitrary one-byte strings (every equality pattern): size bound, agreement with the reference after every operation, stored master secrets intact. NewLRUSessionCache(n) for every n.",
+   note=NOTE_COMMON + "sessions are identified by content, not by pointer; the 'concurrent use is equivalent to some sequential order' clause is not decided (single goroutine; see C13).",
+   ref="section 6 C11"),
+ "C14": dict(
+   text="Bounded symbolic execution of every handshake codec of both stacks (real cryptobyte code included): forward unmarshal(marshal(m)) == m for arbitrary in-range fields with bounded list sizes, every ClientHello extension one at a time and all at once; reverse: arbitrary bytes framed as readHandshake frames them, accept => re-encoding reproduces the input (extension-free forms of the hellos); totality: no panic on arbitrary bytes.",
+   note=NOTE_COMMON + "framing precondition of unmarshal (type byte and 24-bit length as readHandshake guarantees); hellos WITH extension blocks are covered in the forward direction and for totality only.",
+   ref="section 6 C14"),
  "C16": dict(
    text="Bounded model checking of dtlcp/replay.go by symbolic execution: (a) one replayWindow.check step from an ARBITRARY window state satisfying the representation invariant (covers histories of any length over the full 48-bit sequence space, window size arbitrary in [-4, 2^20]); (b) 3 (quick) / 4 (thorough) arbitrary checks from the initial state against a ghost 'seen' set. At-most-once, completeness inside max(32,min(size,64)), state frame on reject. This is the right level because the window is pure integer/bit arithmetic: the solver decides it for every value.",
-   note=NOTE_COMMON + "the Conn-level path (authentication before the window is consulted, ReadFrom vs Read) is covered only as far as the harnesses listed in DESIGN.md §6 C16.",
-   ref="§6 C16"),
+   note=NOTE_COMMON + "the Conn-level path (authentication before the window is consulted, ReadFrom vs Read) is not yet covered.",
+   ref="section 6 C16"),
+ "C17": dict(
+   text="Bounded symbolic execution of the real fragmentBuffer against a reference reassembler: message length 1..5 (quick) / 1..9 (thorough), up to 3 fragments with every offset and length 0..len+1 (case split) and symbolic contents: refuses exactly the out-of-range fragments, complete() iff every byte is covered, assembled() equals the original whatever the order/overlap/duplication; hostile 24-bit offsets/lengths: no panic. Thin so far: split/reassembly through writeHandshakeRecord/readHandshake is being added.",
+   note=NOTE_COMMON + "fragment offsets and lengths are enumerated by case split (contents symbolic).",
+   ref="section 6 C17"),
+ "C20": dict(
+   text="Bounded symbolic execution of the real pa.detect / ReadFirstHeader / ProtocolDetectConn.Read (io.ReadFull, tlcp.Server, tls.Server executed from source): first bytes arbitrary, stream length 0..7/9, every segmentation of the transport reads, the three configurations: routed to TLCP iff major version byte 1 and TLCP config present, to TLS iff 3 and TLS config present, unsupported-protocol error otherwise, configuration error when the config is missing, short stream => error; the peeked header is replayed ahead of the live stream for 4/5 reads with every buffer size 0..6, nothing lost or duplicated.",
+   note=NOTE_COMMON + "a full handshake through the adapter is outside (covered by the stacks' own properties once the byte stream is shown intact).",
+   ref="section 6 C20"),
 }
 
 na_reason = {
